@@ -191,6 +191,10 @@ class Gen(object):
             k = r.randint(1, 5)
             nt.append(k)
             srcs.append(source.FloatSource('%s-uv%d' % (gid, t), numpy.array([self.f32() for _ in range(2 * k)], dtype=numpy.float32), ('S', 'T')))
+        has_tan = bool(self.o.get('tangents')) and r.random() < 0.5
+        if has_tan:
+            # per-corner tangent data; the parameter names of such a source are free (the library reads any three as X,Y,Z)
+            srcs.append(source.FloatSource(gid + '-tan', numpy.array([self.f32() for _ in range(3 * 4)], dtype=numpy.float32), r.choice([('X', 'Y', 'Z'), ('A', 'B', 'C'), ('U', 'V', 'W')])))
         if r.random() < 0.4:
             r.shuffle(srcs)      # the position source need not come first
         g = geometry.Geometry(self.doc, gid, r.choice(['g', 'Geo_1', gid]), srcs, double_sided=r.random() < 0.2)
@@ -215,6 +219,13 @@ class Gen(object):
                         layout.append(nt[t])
                     else:
                         layout[off] = min(layout[off], nt[t])
+            if has_tan and r.random() < 0.7:
+                off = off + r.choice([0, 1])
+                il.addInput(off, r.choice(['TEXTANGENT', 'TEXBINORMAL']), '#' + gid + '-tan', '0')
+                if off == len(layout):
+                    layout.append(4)
+                else:
+                    layout[off] = min(layout[off], 4)
             stride = len(layout)
             kind = r.choice(['tri', 'tri', 'line', 'polylist', 'polygons'])
             mat = r.choice([None, 'sym0', 'sym1'])
@@ -304,6 +315,13 @@ class Gen(object):
                     nodes[i].xmlnode.insert(len(nodes[i].transforms) + pos, kids[pos].xmlnode)
         if len(nodes) > 1 and r.random() < 0.5:
             nodes.reverse()                            # so that the reference may also point backwards in the file
+        if self.o.get('rig') and (self.doc.lights or self.doc.cameras):
+            # every light and camera directly under a scaled / sheared top-level node: bound with that node's own matrix
+            tf = [scene.ScaleTransform(float(r.choice([2, 3, 0.5])), float(r.choice([3, 0.25, 2])), float(r.choice([0.5, 4, 1])))]
+            if r.random() < 0.5:
+                tf.append(scene.MatrixTransform(numpy.array([1, 2, 0, 1, 0, 3, 1, -2, 0, 0, 0.5, 4, 0, 0, 0, 1], dtype=numpy.float32)))
+            kids = [scene.LightNode(l) for l in self.doc.lights] + [scene.CameraNode(c) for c in self.doc.cameras]
+            nodes.insert(r.randint(0, len(nodes)), scene.Node(self.uid('rig'), children=kids, transforms=tf[:r.randint(1, len(tf))]))
         return scene.Scene(self.uid('scene'), nodes)
 
 
